@@ -3,6 +3,7 @@ package blockstore
 import (
 	"context"
 	"fmt"
+	"io"
 	"os"
 
 	blocks "github.com/ipfs/go-block-format"
@@ -221,6 +222,15 @@ func (b *ReadWrite) PutMany(ctx context.Context, blks []blocks.Block) error {
 
 		n := uint64(b.dataWriter.Position())
 		if err := util.LdWrite(b.dataWriter, c.Bytes(), bl.RawData()); err != nil {
+			// Drop whatever part of the section was written, so that it neither precedes the
+			// next section nor is left behind at the end of the file.
+			if _, serr := b.dataWriter.Seek(int64(n), io.SeekStart); serr == nil {
+				end := int64(n)
+				if !b.opts.WriteAsCarV1 {
+					end += int64(b.header.DataOffset)
+				}
+				_ = b.f.Truncate(end)
+			}
 			return err
 		}
 		b.idx.InsertNoReplace(c, n)
